@@ -469,6 +469,17 @@ fn local_store_case(c: &Case, rng: &mut Rng, out: &mut Out, dir: &std::path::Pat
             out.violation("C10:local-store:size", "LocalWalWriter::size() differs from the bytes appended", json!({"name": f.name}));
         }
     }
+    // what `list()` must not report (the model's directory holds regular files only): a SUBDIRECTORY with a
+    // WAL name, a symlink to a device, a file whose name is not UTF-8
+    let decoys = rng.chance(1, 3);
+    if decoys {
+        let _ = std::fs::create_dir(dir.join("wal-7fffffff.wal"));
+        let _ = std::os::unix::fs::symlink("/dev/null", dir.join("wal-7ffffffe.wal"));
+        use std::os::unix::ffi::OsStrExt;
+        let _ = std::fs::write(dir.join(std::ffi::OsStr::from_bytes(b"wal-\xff\xfe.wal")), b"x");
+        out.count("local-store:decoys(subdirectory,device-symlink,non-utf8-name)");
+    }
+    check_listing(&local, dir, out, "after-pre-files");
     let pre_img = image();
     out.op(format!("I {}", show_image(&pre_img)), format!("ok {}", pre_img.len()));
     let ents: Vec<String> = c.entries.iter().map(show_entry).collect();
@@ -488,6 +499,7 @@ fn local_store_case(c: &Case, rng: &mut Rng, out: &mut Out, dir: &std::path::Pat
             return;
         }
     };
+    check_listing(&local, dir, out, "after-appends");
     let img = image();
     let cur = if c.entries.is_empty() { "-".to_string() } else { hex(wal_name(rot.current_sequence()).as_bytes()) };
     out.op(format!("NA {} {} {}", c.max, c.entries.len(), ents.join(" ")), format!("{} cur={}", show_image(&img), cur));
@@ -553,6 +565,101 @@ fn local_store_case(c: &Case, rng: &mut Rng, out: &mut Out, dir: &std::path::Pat
         }
     }
     let _ = std::fs::remove_dir_all(dir);
+}
+
+/// ORACLE (independent of `list()` itself — the model is fed what `list()` returns): the listing is exactly the
+/// regular files of the directory whose names are UTF-8, in byte order, as the harness' own `read_dir` sees them
+fn check_listing(local: &LocalWalStore, dir: &std::path::Path, out: &mut Out, when: &str) {
+    let mut want: Vec<String> = std::fs::read_dir(dir)
+        .map(|rd| rd.filter_map(|e| e.ok()).filter(|e| std::fs::metadata(e.path()).map(|m| m.is_file()).unwrap_or(false)).filter_map(|e| e.file_name().into_string().ok()).collect())
+        .unwrap_or_default();
+    want.sort();
+    match local.list() {
+        Ok(got) if got == want => out.count("local-store:list:agrees-with-read_dir"),
+        Ok(got) => out.violation("C10:local-store:list", "LocalWalStore::list() is not the sorted list of the regular UTF-8-named files of the directory", json!({"when": when, "list": got, "directory": want})),
+        Err(e) => out.violation("C10:local-store:list", &format!("LocalWalStore::list() failed: {}", e), json!({"when": when})),
+    }
+}
+
+/// `LocalWalStore` behaviour that only real files show (run once per check): nested directory creation,
+/// a path that is a file, `create` over an existing name, a full disk (`/dev/full` behind a symlink at the
+/// name the rotator will create next), recovery over the result
+fn local_store_extras(out: &mut Out, base: &std::path::Path) {
+    let _ = std::fs::remove_dir_all(base);
+    let nested = base.join("a").join("b").join("wal");
+    let local = match LocalWalStore::new(nested.clone()) {
+        Ok(l) => l,
+        Err(e) => {
+            out.violation("C10:local-store:cannot-create-directory", &format!("LocalWalStore::new on a nested path failed: {}", e), json!({"dir": nested.display().to_string()}));
+            return;
+        }
+    };
+    out.count("local-store:extras:nested-directory-created");
+    // a second store over the same (existing) directory is fine; a path that is a FILE is an error, not a panic
+    if LocalWalStore::new(nested.clone()).is_err() {
+        out.violation("C10:local-store:existing-directory", "LocalWalStore::new on an existing directory failed", json!({}));
+    }
+    std::fs::write(base.join("plain-file"), b"x").unwrap();
+    match catch_unwind(AssertUnwindSafe(|| LocalWalStore::new(base.join("plain-file")))) {
+        Ok(Err(_)) => out.count("local-store:extras:path-is-a-file:error"),
+        Ok(Ok(_)) => out.violation("C10:local-store:path-is-a-file", "LocalWalStore::new accepted a path that is a regular file", json!({})),
+        Err(_) => out.violation("C10:panic:local-store-new", "LocalWalStore::new panicked on a path that is a regular file", json!({})),
+    }
+    // create over an existing name truncates (what the model's `create` does), and the new writer starts at 0
+    {
+        let mut w = local.create("wal-000000aa.wal").unwrap();
+        w.append(b"0123456789").unwrap();
+        w.sync().unwrap();
+        drop(w);
+        let mut w2 = local.create("wal-000000aa.wal").unwrap();
+        let size0 = w2.size();
+        w2.append(b"ab").unwrap();
+        let size2 = w2.size();
+        drop(w2);
+        let bytes = local.open_read("wal-000000aa.wal").and_then(|mut r| r.read_all()).unwrap_or_default();
+        if size0 != 0 || size2 != 2 || bytes != b"ab" {
+            out.violation("C10:local-store:create-truncates", "create over an existing name did not start an empty file", json!({"size_after_create": size0, "size_after_append": size2, "bytes": hex(&bytes)}));
+        }
+        local.delete("wal-000000aa.wal").unwrap();
+        out.count("local-store:extras:create-over-existing-name");
+    }
+    // a full disk under file 1: its header cannot be written; the rotator reports the error, moves on to file 2,
+    // and recovery returns exactly what was appended successfully
+    if std::path::Path::new("/dev/full").exists() {
+        let _ = std::os::unix::fs::symlink("/dev/full", nested.join(wal_name(1)));
+        let e = |t: u64| { let data = vec![t as u8, 9, 9]; let checksum = crate::cfg::entry_checksum(t, &data); WalEntry { data, timestamp: t, checksum } };
+        let r = catch_unwind(AssertUnwindSafe(|| {
+            let mut rot = WalRotator::new(local.clone(), 1 << 20).unwrap();
+            let mut ok = Vec::new();
+            let mut results = Vec::new();
+            for t in 1..=3u64 {
+                let en = e(t);
+                let res = rot.append(&en);
+                results.push(res.is_ok());
+                if res.is_ok() {
+                    ok.push(en);
+                }
+            }
+            let synced = rot.sync().is_ok();
+            let rec = rot.recover_all_entries().unwrap();
+            (results, synced, ok, rec)
+        }));
+        match r {
+            Err(_) => out.violation("C10:panic:local-store-disk-full", "the rotator panicked on a full disk", json!({})),
+            Ok((results, synced, ok, rec)) => {
+                out.count("local-store:extras:disk-full(/dev/full)");
+                let same = ok.len() == rec.len() && ok.iter().zip(rec.iter()).all(|(a, b)| same(a, b));
+                // the model (Rot.rotate: create ok, header append fails -> error, no current writer; next append
+                // rotates to file 2): [false, true, true]; the failed writer poisons the next sync() once
+                if results != vec![false, true, true] || !same {
+                    out.violation("C10:local-store:disk-full", "appends over a full disk: results / recovery differ from the model's (first append fails in rotate, the next ones go to the next file, recovery = what was appended)", json!({"append_ok": results, "sync_ok": synced, "appended_ok": ok.len(), "recovered": rec.len()}));
+                }
+            }
+        }
+    } else {
+        out.count("local-store:extras:no-/dev/full");
+    }
+    let _ = std::fs::remove_dir_all(base);
 }
 
 /// `recover()` takes the in-memory rotator type; the local one goes through the same code
@@ -1072,6 +1179,7 @@ pub fn run(a: &Args) {
             }
         }
     }
+    local_store_extras(&mut out, &a.out.join("c10-local-extras"));
     let local_dir = a.out.join("c10-local-wal");
     for _ in 0..a.n {
         let c = gen_case(&mut rng, &mut out);
